@@ -8,9 +8,11 @@ package db
 // memState, itemBytes and a recount of the stored content), the REAL gauges and what the call returned.
 // No property is evaluated here: TLC evaluates the invariants of specs/RevCache on the recorded lines.
 //
-// Modes ($VERIF_C16_MODE):  seq   replay of TLC behaviours ($VERIF_BEH), one whole API call at a time
-//                           conc  seeded random goroutines, snapshots at quiescence only
-//                           sched forced schedules of candidate races (gate inside the backing store)
+// Modes ($VERIF_C16_MODE, comma separated; trace of each mode in $VERIF_TRACE_OUT.<mode>):
+//   seq          replay of TLC behaviours ($VERIF_BEH), one whole API call at a time
+//   cand         the same for candidate scripts ($VERIF_BEH_CAND) on the bare LRURevisionCache
+//   conc         seeded random goroutines, snapshots at quiescence only
+//   sched-<name> forced schedule of a candidate race (gate inside the backing store)
 
 import (
 	"context"
@@ -481,18 +483,28 @@ type vC16Beh struct {
 }
 
 func TestVerif_C16_RevCache(t *testing.T) {
-	mode := os.Getenv("VERIF_C16_MODE")
-	tw := vOpenTrace(t, "VERIF_TRACE_OUT")
-	defer tw.Close()
-	switch mode {
-	case "seq":
-		vC16Seq(t, tw)
-	case "conc":
-		vC16Conc(t, tw)
-	case "sched":
-		vC16Sched(t, tw)
-	default:
-		t.Fatalf("VERIF-FATAL VERIF_C16_MODE=%q", mode)
+	// VERIF_C16_MODE is a comma separated list; every mode writes its own trace file $VERIF_TRACE_OUT.<mode>
+	// (one test binary start for all of them: the link of the db test binary dominates the cost).
+	outBase := os.Getenv("VERIF_TRACE_OUT")
+	if outBase == "" {
+		t.Skip("VERIF_TRACE_OUT not set (harness is driven by /verif/bin/vcheck)")
+	}
+	for _, mode := range strings.Split(os.Getenv("VERIF_C16_MODE"), ",") {
+		_ = os.Setenv("VERIF_C16_OUT", outBase+"."+mode)
+		tw := vOpenTrace(t, "VERIF_C16_OUT")
+		switch {
+		case mode == "seq":
+			vC16Seq(t, tw, "VERIF_BEH", "")
+		case mode == "cand": // candidate sequential scripts, on the bare LRURevisionCache
+			vC16Seq(t, tw, "VERIF_BEH_CAND", "lru")
+		case mode == "conc":
+			vC16Conc(t, tw)
+		case strings.HasPrefix(mode, "sched-"):
+			vC16Sched(t, tw, strings.TrimPrefix(mode, "sched-"))
+		default:
+			t.Fatalf("VERIF-FATAL VERIF_C16_MODE=%q", mode)
+		}
+		tw.Close()
 	}
 }
 
@@ -502,9 +514,9 @@ func vC16Sizes(t *testing.T) (int64, int64) {
 	return e.size["c1"], e.size["c2"]
 }
 
-func vC16Seq(t *testing.T, tw *vTraceWriter) {
+func vC16Seq(t *testing.T, tw *vTraceWriter, behEnv string, forceImpl string) {
 	var behs []vC16Beh
-	vReadJSON(t, "VERIF_BEH", &behs)
+	vReadJSON(t, behEnv, &behs)
 	rnd := vRand()
 	r1, r2 := vC16Sizes(t)
 	for bi, b := range behs {
@@ -514,8 +526,8 @@ func vC16Seq(t *testing.T, tw *vTraceWriter) {
 			impls = []string{"lru", "orch", "shard"}
 		}
 		impl := impls[rnd.Intn(len(impls))]
-		if f := os.Getenv("VERIF_C16_IMPL"); f != "" {
-			impl = f
+		if forceImpl != "" {
+			impl = forceImpl
 		}
 		e := vC16NewEnv(t, impl, vInt(b.Cap), vC16RealMaxBytes(mb, r1, r2), b.Store, false)
 		tw.Emit(e.resetLine(bi, "seq", false))
@@ -611,8 +623,7 @@ func vC16Conc(t *testing.T, tw *vTraceWriter) {
 
 // forced schedules of the candidate races found by the model (named deviations of specs/RevCache).  Each scenario is its own
 // behaviour; ordering is forced by a gate inside the backing store and by waiting for a state of the real cache - never by sleeping.
-func vC16Sched(t *testing.T, tw *vTraceWriter) {
-	want := os.Getenv("VERIF_C16_SCENARIO")
+func vC16Sched(t *testing.T, tw *vTraceWriter, want string) {
 	waitFor := func(what string, cond func() bool) {
 		deadline := time.Now().Add(20 * time.Second)
 		for !cond() {
